@@ -26,6 +26,19 @@ import (
 
 func init() {
 	families["C18"] = append(families["C18"], callerDataFamily)
+	// a render that writes into the data it was handed changes what the next render of the same
+	// context prints: the same obligations are what repeatability (C01) and determinism (C03)
+	// need from the filters and functions
+	for _, p := range []string{"C01", "C03"} {
+		pp := p
+		families[pp] = append(families[pp], func(w *World, _ string) ([]*Obligation, []string) {
+			obls, notes := callerDataFamily(w, "C18")
+			for _, o := range obls {
+				o.Props = []string{pp}
+			}
+			return obls, notes
+		})
+	}
 }
 
 func isPkgInternalType(t types.Type) bool {
